@@ -119,12 +119,17 @@ def compose_worker(arg):
         def __init__(self, i):
             self.F = z3.Function(f"F{i}", R, R)
             self.G = z3.Function(f"G{i}", R, R)
+            self.DF = z3.Function(f"domF{i}", R, z3.BoolSort())
+            self.DG = z3.Function(f"domG{i}", R, z3.BoolSort())
 
+        # the component contracts are PARTIAL: forward/inverse are defined on a domain (inverse: strictly inside the
+        # bounds; forward: where it does not overflow) - an uninterpreted predicate of the argument, carried as a
+        # value-level definedness condition exactly like log/division in the kernels
         def forward(self, x):
-            return common_ew(lambda s: Sym(self.F(s.e)), x)
+            return common_ew(lambda s: Sym(self.F(s.e), d=s.d | {Ctx.new_def("component", self.DF(s.e), "argument in the domain of the component's forward")}), x)
 
         def inverse(self, y):
-            return common_ew(lambda s: Sym(self.G(s.e)), y)
+            return common_ew(lambda s: Sym(self.G(s.e), d=s.d | {Ctx.new_def("component", self.DG(s.e), "argument in the domain of the component's inverse")}), y)
 
     def common_ew(f, x):
         if isinstance(x, Sym):
@@ -165,6 +170,13 @@ def compose_worker(arg):
         okb = all(z3.simplify(g[i].e).eq(z3.simplify(comp.G(comp.F(xv[i].e)) if mask[i] else xv[i].e)) for i in range(3))
         out["results"].append({"name": f"MaskedTransform[{''.join('1' if b else '0' for b in mask)}]: transforms exactly the masked entries, both directions",
                                "status": "proved" if ok and okb else "refuted", "backend": "structural", "time_s": 0, "model": {}, "detail": ""})
+        # identity OFF the mask for every finite input: the unmasked entries must not depend on the component at all,
+        # not even through its domain (0 * NaN is NaN: an arithmetic blend instead of a select breaks this)
+        gy = m.inverse(xv)
+        okd = all((mask[i] or (not f[i].d and not gy[i].d)) for i in range(3))
+        out["results"].append({"name": f"MaskedTransform[{''.join('1' if b else '0' for b in mask)}]: unmasked entries are defined for every input (no dependence on the component's domain)",
+                               "status": "proved" if okd else "refuted", "backend": "structural", "time_s": 0, "model": {},
+                               "detail": "" if okd else "an unmasked entry carries a definedness condition of the inner transform: outside the inner domain the result is NaN instead of the input"})
         out["reached"].update(rt.reached)
     # ParamTransform: every transform reaches exactly its own entry (tree_map modelled by its contract)
     Ctx.reset()
@@ -275,7 +287,36 @@ def replay_transform(kind, r):
     return info
 
 
+def replay_masked(name):
+    """native replay of a MaskedTransform obligation: inner Sigmoid(-2, 2) / Softplus(1), inputs outside the inner domain
+    at every position, eagerly and under jit (mask closed over)"""
+    import jax
+    jax.config.update("jax_enable_x64", True)
+    import jax.numpy as jnp
+    import jaxley.optimize.transforms as T
+    bits = name.split("[")[1].split("]")[0]
+    mask = np.asarray([b == "1" for b in bits])
+    info = {"mask": bits, "reproduced": False, "cases": []}
+    for inner, val in ((T.SigmoidTransform(-2.0, 2.0), 5.0), (T.SoftplusTransform(1.0), 0.25)):
+        m = T.MaskedTransform(jnp.asarray(mask), inner)
+        y = jnp.full((len(bits),), val)
+        for mode, fn in (("eager", m.inverse), ("jit", jax.jit(lambda a: m.inverse(a)))):
+            try:
+                got = np.asarray(fn(y), dtype=float)
+            except Exception as e:
+                info["cases"].append({"inner": type(inner).__name__, "mode": mode, "raised": f"{type(e).__name__}: {e}"})
+                info["reproduced"] = True
+                continue
+            bad = [i for i in range(len(bits)) if not mask[i] and not got[i] == val]
+            info["cases"].append({"inner": type(inner).__name__, "mode": mode, "input": val, "got": [repr(float(g)) for g in got], "unmasked entries changed": bad})
+            if bad:
+                info["reproduced"] = True
+    return info
+
+
 def replay(p):
+    if p.get("kind_t") is None and str(p.get("obligation", "")).startswith("MaskedTransform["):
+        return replay_masked(p["obligation"])
     return replay_transform(p["kind_t"], {"model": p.get("model", {}), "name": p["obligation"]})
 
 
@@ -327,7 +368,7 @@ def _collect(ck, o, kind):
         ck.add(r)
         if r["status"] == "refuted":
             ok = False
-            rp = replay_transform(kind, r) if kind else {"reproduced": False}
+            rp = replay_transform(kind, r) if kind else (replay_masked(r["name"]) if r["name"].startswith("MaskedTransform[") else {"reproduced": False})
             ck.violation(r["name"], {"solver": r["backend"], "solver_output": r["detail"], "model": r["model"], "replay": rp, "kind": "c17",
                                      "replay_module": "jxverif.props.C17", "kind_t": kind}, reproduced=rp.get("reproduced", False))
         elif r["status"] != "proved":
